@@ -63,7 +63,10 @@ def render_step(i, step):
     if not step["bases"]:
         body.append("    def __init__(self):\n        self.a = 1\n")
     m = step["m"]
-    if m == "helper":
+    if m == "alias":
+        # pick the root's implementation explicitly (the idiom to resolve a multiple inheritance): the very function object of X0
+        body.append("    m = X0.m\n")
+    elif m == "helper":
         # one shared helper function used as the method of several classes
         body.append("    m = HELPER\n")
     elif m != "-":
@@ -186,12 +189,14 @@ def steps_for(existing, tier):
     quick = small alphabet, thorough = full alphabet."""
     out = []
     inv_opts = {"quick": ["-", "C", "S", "A"], "tiny": ["-", "C", "S"]}.get(tier, ["-", "C", "S", "A", "CS", "SA"])
-    m_opts = {"quick": ["-", "pre", "post", "prepostsnap", "helper"], "tiny": ["-", "pre", "prepostsnap"]}.get(
-        tier, ["-", "bare", "pre", "post", "prepostsnap", "helper"])
+    m_opts = {"quick": ["-", "pre", "post", "prepostsnap", "helper", "alias"], "tiny": ["-", "pre", "prepostsnap"]}.get(
+        tier, ["-", "bare", "pre", "post", "prepostsnap", "helper", "alias"])
     base_choices = [[]] + [[c] for c in existing] + [[a, b] for a, b in itertools.permutations(existing, 2)]
     for bases in base_choices:
         for inv in inv_opts:
             for m in m_opts:
+                if m == "alias" and (not bases or bases == ["X0"]):
+                    continue  # taking over X0.m is only interesting below another class that re-defines m
                 for p in (["-", "extset", "extset_root", "post"] if tier == "quick" else (["-"] if tier == "tiny" else PROP_OPTS + ["extset_root"])):
                     if p in ("extset", "extset_root") and (not bases or m != "-" or inv not in ("-", "C")):
                         continue
@@ -267,7 +272,8 @@ def check_history(history, acc, tier):
     feats = {"depth": len(history), "op": step["op"], "nbases": len(step.get("bases", [])), "inv": step.get("inv"), "m": step.get("m"),
              "p": step.get("p"), "status": status,
              "root_inv": history[0].get("inv"), "bases_inv": "/".join(history[int(b[1:])].get("inv", "-") for b in step.get("bases", []))}
-    if step.get("p") == "extset_root":
+    if step.get("p") == "extset_root" or step.get("m") == "alias":
+        feats["reuses_root_member"] = True
         anc, todo = set(), list(step.get("bases", []))
         while todo:
             b = todo.pop()
@@ -348,7 +354,7 @@ def run(tier, t0):
              "decorated module-level function; decorating once more, after the fact, the method m of an existing class that defines it "
              "(the target and its descendants may change, nobody else). Plans (alphabet, depth after root): {}. tiny alphabet: invariant in {{none, CALL, SETATTR}} x method in {{absent, pre, "
              "pre+post+snapshot}}; small (quick) alphabet: invariant in {{none, CALL, "
-             "SETATTR, ALL}} x method in {{absent, pre, post, pre+post+snapshot, a shared helper function}}; every alphabet also "
+             "SETATTR, ALL}} x method in {{absent, pre, post, pre+post+snapshot, a shared helper function, m = X0.m (the root's function taken over)}}; every alphabet also "
              "re-decorates one shared plain function; full alphabet adds CALL+SETATTR, SETATTR+ALL, bare and "
              "pre+post+snapshot methods, properties. Every history is replayed on a fresh namespace; before/after the last step "
              "all earlier definitions are observed (names in __invariants__/_on_call__/_on_setattr__ and whether the class owns "
